@@ -781,6 +781,15 @@ def check_C06(run):
             disagree.append(dict(filters=f, paths=p, impl=iv, oracle_verdicts=ov, model=model[i], request_line=mlines[midx.index(i)]))
     run.cov['disagreements_checked'] += len(cases)
 
+    # L2: what the boss ships to the two doers (roots of every kind, all behaviours): the same, complete filter list
+    scs = []
+    for _ in range(400 if not thorough else 4000):
+        sc_ = l2.gen_scenario(rng, rng.choice(['folder', 'mixed', 'mixed']), faults=False)
+        sc_.filters = rng.sample(['+.*', '-a', '+a/.*', '-.*\\.b', '-build|dist', '-.*\\.bak', '+d.*', '-x y'], rng.randint(1, 3))
+        sc_.beh, sc_.answers = rng.choice(['ooooo', 'oosoo', 'oooos', 'soooo']), ''
+        scs.append(sc_)
+    l2_stream(run, scs, [('same-filters', oracle_same_filters)], 'filters-shipped', nontrivial=lambda r: any(cmd_name(c) == 'GetEntries' for c in r['impl_r'].get('dest', [])))
+
     def on_broken(failed):
         if oracle_fail:
             o = min(oracle_fail, key=lambda o: (len(o['filters']), sum(len(x) for x in o['filters'])))
@@ -942,6 +951,58 @@ def check_C10(run):
                                    before={k.decode(): v for k, v in before.items()}, after={k.decode(): v for k, v in after.items()}, doer_exit=rc))
             if good and before == after:
                 run.cov.setdefault('notes', []).append('sanity: frames under the right key did not execute (harness problem?)')
+        # a recorded session replayed on a second connection to the same doer (its ssh session still open): the frames were made for
+        # positions 0.. of *that* session; a doer that accepted another connection under the same key would execute them again
+        for trial in range(2 if not thorough else 10):
+            root = os.path.join(d, f'r{trial}'); os.makedirs(root)
+            l3.make_tree(root, [('victim', 'F', b'precious', 1_500_000_000_000_000_000)])
+            right = '%032x' % rng.getrandbits(128)
+            cmds = [['SR', C.X(root)], ['CF', C.X('made')], ['MK']] + ([['DF', C.X('victim')]] if trial % 2 else [])
+            toks = ['mkframes', right, str(len(cmds))] + [x for c in cmds for x in c]
+            wire = bytes.fromhex(C.run_harness([' '.join(toks)])[0][0])
+            p = subprocess.Popen([C.CLI_BIN, '--doer'], stdin=subprocess.PIPE, stdout=subprocess.PIPE, stderr=subprocess.PIPE, env=C.ENV)
+            second, first_reply, second_reply, rc = 'not-tried', b'', b'', None
+            try:
+                p.stdout.readline()
+                p.stdin.write((right + '\n').encode()); p.stdin.flush()
+                port = None
+                while True:
+                    line = p.stdout.readline().decode()
+                    if not line: break
+                    if 'port ' in line:
+                        port = int(line.strip().rsplit(' ', 1)[1]); break
+                s = socket.create_connection(('127.0.0.1', port), timeout=10)
+                s.sendall(wire); s.settimeout(5)
+                try: first_reply = s.recv(65536)
+                except Exception: pass
+                deadline = time.time() + 5
+                while not os.path.isdir(os.path.join(root, 'made')) and time.time() < deadline: time.sleep(0.02)
+                executed_first = os.path.isdir(os.path.join(root, 'made'))
+                s.close()                                   # the link is cut before Shutdown; stdin (the ssh session) stays open
+                time.sleep(0.3)
+                if executed_first: os.rmdir(os.path.join(root, 'made'))
+                l3.make_tree(root, [('victim', 'F', b'precious', 1_500_000_000_000_000_000)])
+                try:
+                    s2 = socket.create_connection(('127.0.0.1', port), timeout=3)
+                    s2.sendall(wire); s2.settimeout(3)
+                    try: second_reply = s2.recv(65536)
+                    except Exception: pass
+                    time.sleep(0.5); s2.close(); second = 'accepted'
+                except Exception:
+                    second = 'refused'
+                replayed = os.path.isdir(os.path.join(root, 'made')) or not os.path.exists(os.path.join(root, 'victim'))
+                p.stdin.close()
+                try: rc = p.wait(timeout=20)
+                except subprocess.TimeoutExpired: rc = 'timeout'; p.kill()
+            finally:
+                if p.poll() is None: p.kill()
+            run.case(('doer-process-replay', trial), True, sample=dict(layer='L4', what='recorded session replayed on a second connection', first_executed=executed_first, second_connection=second, replay_executed=replayed, doer_exit=rc))
+            run.count('doer-process:replay-on-second-connection')
+            if not executed_first:
+                run.cov.setdefault('notes', []).append('sanity: the first, honest session did not execute (harness problem?)')
+            if replayed or (second_reply and second_reply == first_reply) or rc == 'timeout':
+                run.violation(dict(kind='oracle-failed-on-implementation', oracle='frames recorded from one session are not accepted on another connection to the same doer (a frame is bound to its position in its session); no key/nonce pair is used twice',
+                                   layer='L4', second_connection=second, replay_executed=replayed, same_reply_bytes=bool(second_reply) and second_reply == first_reply, doer_exit=rc))
     finally:
         shutil.rmtree(d, ignore_errors=True)
     run.cov['trusted_base'] = C.GLOBAL_TRUST + ['AES-128-GCM is an ideal AEAD (correctness, ciphertext integrity, nonce binding): a computational assumption, stated as the laws of the AEAD parameter (a toy instance shows they are satisfiable)',
@@ -1411,6 +1472,26 @@ def oracle_no_command_through_link(r):
             state[p] = 'L:new'
         elif n == 'CreateOrUpdateFile':
             state[p] = 'F:new'
+    return None
+
+
+def oracle_same_filters(r):
+    """C06 'same on both sides': every GetEntries the boss sends, to either doer, carries the user's filter list —
+    same number, same signs, same order, each pattern containing the user's text (whatever the anchoring wrap)"""
+    sc = r['sc']
+    want = [(f[0], f[1:]) for f in sc.filters if f and f[0] in '+-']
+    if len(want) != len(sc.filters):
+        return None
+    for side in ('src', 'dest'):
+        for c in r['impl_r'].get(side, []):
+            if cmd_name(c) != 'GetEntries':
+                continue
+            got = [a for a in cmd_args(c) if a]
+            if len(got) != len(want):
+                return f'GetEntries to the {side} doer carries {len(got)} filters, the user gave {len(want)}'
+            for g, (sign, pat) in zip(got, want):
+                if g[0] != sign or pat not in bytes.fromhex(g[1:]).decode(errors='replace'):
+                    return f'GetEntries to the {side} doer carries {g[0]}{bytes.fromhex(g[1:]).decode(errors="replace")!r} where the user gave {sign}{pat!r}'
     return None
 
 
